@@ -244,9 +244,14 @@ func (r *FeatureLocal) ApproveOrDenyWrite(msg *api.Message, err model.ErrorType)
 		}
 	}
 
-	timer.Stop()
+	stopped := timer.Stop()
 
 	delete(r.writeApprovalReceived[ski], *msg.RequestHeader.MsgCounter)
+
+	// the timeout, or another verdict, already took this write and sends its result
+	if !stopped {
+		return
+	}
 
 	r.muxResponseCB.Lock()
 	defer r.muxResponseCB.Unlock()
